@@ -27,7 +27,9 @@ def decode_string_node(node) -> tuple[str | None, bool]:
             interp = True
             out.append(child.text.decode("utf-8", "replace"))
         elif t == "dollar_escape":
-            out.append(child.text.decode("utf-8", "replace")[-1:])
+            # `\` (or `''` in indented strings) in front of a `$`: contributes nothing itself,
+            # the `$` follows as an ordinary fragment
+            continue
         else:
             out.append(child.text.decode("utf-8", "replace"))
     return "".join(out), interp
